@@ -37,6 +37,16 @@ VIEW_METHODS = {'to_numpy', 'view', 'reshape', 'ravel', 'squeeze', 'transpose', 
                 '__iter__', 'as_clustering', 'get_group', 'first', 'last', 'flatten_view', 'diagonal'}
 UNCLASSIFIABLE = {'exec', 'globals', 'locals', 'vars', 'compile', '__import__', 'importlib.import_module',
                   'importlib.reload', 'ctypes'}
+# Decorators (and module-level wrappers `g = deco(f)`) that hand the call through without keeping results.  Every
+# OTHER decorator on a pyrepseq callable - functools.lru_cache / cache, cachetools, joblib Memory.cache, a home-made
+# memoize, anything unknown - may keep the returned object and hand the SAME object to a later call: the result is then
+# a module-level object shared between calls (token ('G', '<callable>:cache')), and an in-place operation on it is a
+# mutation of module-level state.  Memoisation alone stays pure (filling the cache is not observable).
+TRANSPARENT_DECORATORS = {'staticmethod', 'classmethod', 'property', 'abstractmethod', 'abstractproperty',
+                          'abstractclassmethod', 'abstractstaticmethod', 'wraps', 'overload', 'final', 'override',
+                          'setter', 'getter', 'deleter', 'jit', 'njit', 'vectorize', 'guvectorize', 'contextmanager',
+                          'asynccontextmanager', 'singledispatch', 'singledispatchmethod', 'register',
+                          'total_ordering', 'deprecated', 'no_type_check', 'partial', 'partialmethod', 'dataclass'}
 BOT = (frozenset(), frozenset())
 
 
@@ -144,8 +154,24 @@ class Func:
         self.defaults = [p for p in self.params if p in dmap and not is_const(dmap[p])]
         name = node.name
         self.public = (not name.startswith('_') or name == '__init__') and (cls is None or not cls.startswith('_'))
+        self.cached = [deco_name(d) for d in node.decorator_list if keeps_results(d)]   # see TRANSPARENT_DECORATORS
         self.summary = dict(mut=set(), mutglob=set(), ret=BOT, rng=False, unknown=[], eff=('skip',),
                             selfstate=False, notes=[])
+
+
+def deco_name(d):
+    """last component of a decorator / wrapper expression: lru_cache, functools.lru_cache(maxsize=None), memory.cache"""
+    while isinstance(d, ast.Call):
+        d = d.func
+    if isinstance(d, ast.Attribute):
+        return d.attr
+    if isinstance(d, ast.Name):
+        return d.id
+    return '<%s>' % type(d).__name__
+
+
+def keeps_results(d):
+    return deco_name(d) not in TRANSPARENT_DECORATORS
 
 
 def is_const(d):
@@ -179,6 +205,8 @@ class Program:
                 self.mods[name] = m
         for m in self.mods.values():
             self.scan(m)
+        for m in self.mods.values():
+            self.scan_wrappers(m)
 
     def absmod(self, m, level, modname):
         """pyrepseq-relative module name of an import, or None if external."""
@@ -201,6 +229,32 @@ class Program:
         for node in ast.walk(m.tree):
             if isinstance(node, ast.Global):
                 m.globals.update(node.names)
+
+    def scan_wrappers(self, m):
+        """module level `g = lru_cache(maxsize=None)(f)`, `f = memoize(f)`: g is f behind a wrapper that may keep results"""
+        def toplevel(body):
+            for st in body:
+                yield st
+                if isinstance(st, (ast.If, ast.Try, ast.With)):
+                    for sub in ast.iter_child_nodes(st):
+                        if isinstance(sub, ast.stmt):
+                            yield from toplevel([sub])
+                        elif isinstance(sub, ast.ExceptHandler):
+                            yield from toplevel(sub.body)
+        for node in toplevel(m.tree.body):
+            if not (isinstance(node, ast.Assign) and isinstance(node.value, ast.Call) and len(node.value.args) == 1
+                    and not node.value.keywords and isinstance(node.value.args[0], ast.Name)):
+                continue
+            r = self.resolve(m, node.value.args[0].id)
+            if not r or r[0] != 'func' or not keeps_results(node.value.func):
+                continue
+            f = self.funcs[r[1]]
+            name = deco_name(node.value.func)
+            if name not in f.cached:
+                f.cached.append(name)
+            for t in node.targets:
+                if isinstance(t, ast.Name) and t.id not in m.funcs and t.id not in m.classes:
+                    m.funcs[t.id] = r[1]
 
     def scan_stmt(self, m, node):
         if isinstance(node, ast.Import):
@@ -297,7 +351,10 @@ class Analyzer:
                 self.notes.append('%s: %s on parameter %s (line %d)' % (self.fn.qual, how, tok[1], getattr(node, 'lineno', 0)))
             elif tok[0] == 'G':
                 self.mutglob.add(tok[1])
-                self.notes.append('%s: %s on module object %s (line %d)' % (self.fn.qual, how, tok[1], getattr(node, 'lineno', 0)))
+                what = ('the result of %s, which its wrapper %s may keep and hand to later calls (shared between calls)' % (
+                    tok[1][:-len(':cache')], '/'.join(self.P.funcs[tok[1][:-len(':cache')]].cached))
+                    if tok[1].endswith(':cache') and tok[1][:-len(':cache')] in self.P.funcs else 'module object ' + tok[1])
+                self.notes.append('%s: %s on %s (line %d)' % (self.fn.qual, how, what, getattr(node, 'lineno', 0)))
 
     def unk(self, what, node):
         self.unknown.append('%s (line %d)' % (what, getattr(node, 'lineno', 0)))
@@ -723,7 +780,15 @@ class Analyzer:
                 ef = seq(ef, self.assign(env, t.value if isinstance(t, ast.Starred) else t, (s, s), node))
             return ef
         if isinstance(target, (ast.Subscript, ast.Attribute)):
-            return self.store_into(env, target, node)
+            ef = self.store_into(env, target, node)
+            if isinstance(value_node, ast.Name) and value_node.id in env and not (
+                    isinstance(target, ast.Attribute) and isinstance(target.value, ast.Name) and target.value.id == 'self'):
+                # `_memo[key] = ans`: from here on the local IS an object kept at module level (memo dictionary)
+                base, _ = self.ev(env, target.value)
+                g = frozenset(t for t in allof(base) if t[0] == 'G')
+                if g:
+                    self.bind(env, value_node.id, join(env[value_node.id], (g, g)))
+            return ef
         self.unk('assignment target ' + type(target).__name__, node)
         return ('skip',)
 
@@ -933,6 +998,10 @@ class Analyzer:
         mut = set(self.mut)
         if fn.node.name == '__init__':
             mut.discard('self')         # the object under construction is fresh
+        if fn.cached and fn.node.name != '__init__':
+            # the wrapper may hand out the object it kept from an earlier call: the result is shared between calls
+            c = frozenset([('G', fn.qual + ':cache')])
+            self.ret = (self.ret[0] | c, self.ret[1] | c)
         if esize(ef) > 3000:
             ef = collapse(ef)
         return dict(mut=mut, mutglob=set(self.mutglob), ret=self.ret, rng=self.rng,
